@@ -10,6 +10,7 @@ import DlmsVerif.Run.Addr
 import DlmsVerif.Run.Hdlc
 import DlmsVerif.Run.Rx
 import DlmsVerif.Run.Time
+import DlmsVerif.Run.Axdr
 
 structure DriverState where
   link : Run.Link.S := {}
@@ -19,6 +20,7 @@ def step (st : DriverState) (line : String) : DriverState × String :=
   match (line.trimAscii.toString.splitOn " ").filter (· ≠ "") with
   | "crc" :: rest => (st, Run.Crc.handle rest)
   | "fld" :: rest => (st, Run.Fields.handle rest)
+  | "axdr" :: rest => (st, Run.Axdr.handle rest)
   | "time" :: rest => (st, Run.Time.handle rest)
   | "hdlc" :: rest => (st, Run.Hdlc.handle rest)
   | "addr" :: rest => (st, Run.Addr.handle rest)
